@@ -1,6 +1,7 @@
 package c01
 
 import (
+	"context"
 	"fmt"
 	"strconv"
 	"sync/atomic"
@@ -92,6 +93,18 @@ func TestProp_WholeRuns(t *testing.T) {
 				spec.Trigger = nil
 			}
 		}
+		// one run in five is interrupted by the caller at a drawn instant: what ran is counted all the same
+		cancelAt := 0
+		if rapid.IntRange(0, 4).Draw(rt, "endByCancel") == 0 {
+			cancelAt = rapid.IntRange(1, int(shape.MaxDuration.Milliseconds())).Draw(rt, "cancelAtMs")
+			ctx, cancel := context.WithCancel(context.Background())
+			defer cancel()
+			spec.Ctx = ctx
+			go func() {
+				time.Sleep(time.Duration(cancelAt) * time.Millisecond)
+				cancel()
+			}()
+		}
 		out, err := vlib.Execute(spec)
 		if err != nil {
 			rt.Fatalf("VERIF-INFRA: cannot execute generated run %s: %v", shape.Desc, err)
@@ -123,6 +136,9 @@ func TestProp_WholeRuns(t *testing.T) {
 		}
 		if secondRun {
 			cls = append(cls, "second-run-on-same-metrics")
+		}
+		if cancelAt > 0 {
+			cls = append(cls, "interrupted-by-the-caller")
 		}
 		stats.Case("runs", shape.Desc+fmt.Sprint(failEvery, panicEvery, bodyUs, metricsOn), nontrivial, cls, func() any {
 			return map[string]any{"shape": shape.Desc, "failEvery": failEvery, "panicEvery": panicEvery, "bodyMicros": bodyUs,
